@@ -3,9 +3,9 @@
    Objective.param_index_update -- all regenerated from /repo's AST on every run (gen/Refs_NonlinearSolve.v, gen/CFG_drivers.v);
    the adjoint identity over an abstract inner-product structure. *)
 From Coq Require Import Reals List Bool Arith String.
-From OV.model Require Import M_C07_Refs M_C19_CFG M_C07_Rule.
+From OV.model Require Import M_C07_Refs M_C19_CFG M_C07_Rule M_C07_Hist.
 From OV.gen Require Import Refs_NonlinearSolve CFG_drivers.
-From OV.proofs Require Import L_C07 L_C19 L_C07_Rule.
+From OV.proofs Require Import L_C07 L_C19 L_C07_Rule L_C07_Hist.
 Import ListNotations.
 Local Open Scope R_scope.
 
@@ -158,12 +158,166 @@ Theorem C07_closure_linearises_at_p : forall (P : Type) (p : Par P) k q0,
   List.length p = 6%nat -> (k < 6)%nat -> nth k p None = Some q0 -> upd P p k q0 = p.
 Proof. exact upd_same. Qed.
 
+(* ---- all slots at once: the Params a rule returns is the transposed TOTAL derivative of the solution map.  total_tangent pf e sl dp dU:
+   H(pf, Uu) dU = - sum over the differentiated slots k of sl (guard satisfied, slot present) of d(grad_x)/dp_k (dp k)   (weak form; proofs/L_C07_Hist.v);
+   wsum psi sl cots: sum of psi k c over the positions of the returned tuple that hold a cotangent c for slot k.  General form, for ANY descriptor
+   passing revrule_ok: *)
+Theorem C07_reverse_rule_total_derivative :
+  forall (V P : Type) (vadd : V -> V -> V) (vscale : R -> V -> V) (ipV : V -> V -> R) (ipP : P -> P -> R)
+    (gradx : V -> Par P -> V) (vjp_at : (P -> V) -> P -> V -> P) (jvp_at : (V -> V) -> V -> V -> V) (deriv : (P -> V) -> P -> P -> V)
+    (cg : V -> V -> (V -> V) -> (V -> V) -> option R -> V * V) (vzero : V) (precond : V -> V),
+  (forall a b, ipV a b = ipV b a) ->
+  (forall a b c t, ipV a (vadd b (vscale t c)) = ipV a b + t * ipV a c) ->
+  (forall g q w dp, ipP dp (vjp_at g q w) = ipV (deriv g q dp) w) ->
+  forall cls r rk expected (e : renv V P) pf dp dU,
+  revrule_ok r expected = true -> forallb closure_ok cls = true -> p_used V P rk e = pf ->
+  solve_hyps V P vadd vscale ipV gradx jvp_at cg vzero pf (e_Uu V P e) (e_v V P e) ->
+  resolvable V P cls pf e expected -> total_tangent V P ipV gradx jvp_at deriv pf e expected dp dU ->
+  r_slots r = expected /\ fst (rule_out V P gradx vjp_at jvp_at cg vzero precond cls r rk true e) = vzero
+  /\ wf P expected (snd (rule_out V P gradx vjp_at jvp_at cg vzero precond cls r rk true e))
+  /\ ipV (e_v V P e) dU = wsum P (fun k c => ipP (dp k) c) expected (snd (rule_out V P gradx vjp_at jvp_at cg vzero precond cls r rk true e)).
+Proof. exact rule_total. Qed.
+
+(* nonlinear_solve_with_state_b as extracted, whatever objective.p holds: <v, dU> = sum_k <dp k, returned cotangent of slot k> for the tangent dU of the
+   solution when bc, state, design and time move together *)
+Theorem C07_with_state_rule_total_derivative :
+  forall (V P : Type) (vadd : V -> V -> V) (vscale : R -> V -> V) (ipV : V -> V -> R) (ipP : P -> P -> R)
+    (gradx : V -> Par P -> V) (vjp_at : (P -> V) -> P -> V -> P) (jvp_at : (V -> V) -> V -> V -> V) (deriv : (P -> V) -> P -> P -> V)
+    (cg : V -> V -> (V -> V) -> (V -> V) -> option R -> V * V) (vzero : V) (precond : V -> V),
+  (forall a b, ipV a b = ipV b a) ->
+  (forall a b c t, ipV a (vadd b (vscale t c)) = ipV a b + t * ipV a c) ->
+  (forall g q w dp, ipP dp (vjp_at g q w) = ipV (deriv g q dp) w) ->
+  forall (e : renv V P) (dp : nat -> P) (dU : V),
+  let o := rule_out V P gradx vjp_at jvp_at cg vzero precond objective_vjp_closures rule_nonlinear_solve_with_state_b
+             restore_nonlinear_solve_with_state_b objective_hessian_vec_is_jvp_of_grad_x_at_self_p e in
+  solve_hyps V P vadd vscale ipV gradx jvp_at cg vzero (e_psaved V P e) (e_Uu V P e) (e_v V P e) ->
+  total_tangent V P ipV gradx jvp_at deriv (e_psaved V P e) e expected_slots_with_state dp dU ->
+  ipV (e_v V P e) dU = wsum P (fun k c => ipP (dp k) c) expected_slots_with_state (snd o).
+Proof. exact with_state_rule_total. Qed.
+
+(* ---- load histories on ONE Objective (model/M_C07_Hist.v).  sweep: JAX runs the reverse rules of the solves last-to-first; every rule reads and assigns
+   the mutable attribute objective.p (threaded through the sweep: s_pobj), receives the direct cotangent of its solution plus what later solves sent
+   back (s_ubar; the previous solution is also the initial guess, whose cotangent is the rule's first component), and its Params cotangents are pulled
+   back to the global parameters theta (b_At) and to the previous solution (b_Bt).  hist_ok (proofs/L_C07_Hist.v) asks of every solve, in sweep order:
+   (nonlinear_solve only) slots 0,1,3,4,5 of objective.p at the moment its reverse rule runs are what they were in its forward pass; solve_hyps at the
+   forward solution and parameters; t_dp k = tangent of the value of slot k given dth and the tangent of the previous solution; t_dU = implicit-function
+   tangent of the solution for all slots together.  Conclusion: the sweep never gets stuck and the accumulated cotangent of theta pairs with dth as
+   sum_k <v_k, dU_k> -- the derivative of the history by the chained implicit function theorem. *)
+Theorem C07_history_adjoint :
+  forall (V P Th : Type) (vadd : V -> V -> V) (vscale : R -> V -> V) (thadd : Th -> Th -> Th)
+    (ipV : V -> V -> R) (ipP : P -> P -> R) (ipT : Th -> Th -> R) (gradx : V -> Par P -> V) (vjp_at : (P -> V) -> P -> V -> P)
+    (jvp_at : (V -> V) -> V -> V -> V) (deriv : (P -> V) -> P -> P -> V)
+    (cg : V -> V -> (V -> V) -> (V -> V) -> option R -> V * V) (vzero : V) (precond : V -> V),
+  (forall a b, ipV a b = ipV b a) ->
+  (forall a b c t, ipV a (vadd b (vscale t c)) = ipV a b + t * ipV a c) ->
+  (forall a, ipV a vzero = 0) ->
+  (forall a b c, ipT a (thadd b c) = ipT a b + ipT a c) ->
+  (forall g q w dp, ipP dp (vjp_at g q w) = ipV (deriv g q dp) w) ->
+  forall (dth : Th) (dU0 : V) (l : list (bstep V P Th * tstep V P)) (st0 : sstate V P Th),
+  hist_ok V P Th vadd vscale ipV ipP ipT gradx jvp_at deriv cg vzero (s_pobj V P Th st0) dth dU0 l ->
+  exists st,
+    sweep V P Th gradx vjp_at jvp_at cg vzero precond vadd vscale thadd objective_vjp_closures
+      rule_nonlinear_solve_with_state_b rule_nonlinear_solve_b restore_nonlinear_solve_with_state_b restore_nonlinear_solve_b
+      objective_hessian_vec_is_jvp_of_grad_x_at_self_p st0 (map fst l) = Some st
+    /\ ipT dth (s_thbar V P Th st) + ipV dU0 (s_ubar V P Th st)
+       = ipT dth (s_thbar V P Th st0) + ipV (head_dU V P Th dU0 l) (s_ubar V P Th st0) + vsum V P Th ipV l.
+Proof. exact history_adjoint. Qed.
+
+(* histories of nonlinear_solve_with_state: NOTHING is asked of objective.p -- hist_ok may be checked with any parameters (pany), the sweep may start
+   from any others (what the last forward solve, or anything run in between, left there) *)
+Theorem C07_with_state_history_adjoint :
+  forall (V P Th : Type) (vadd : V -> V -> V) (vscale : R -> V -> V) (thadd : Th -> Th -> Th)
+    (ipV : V -> V -> R) (ipP : P -> P -> R) (ipT : Th -> Th -> R) (gradx : V -> Par P -> V) (vjp_at : (P -> V) -> P -> V -> P)
+    (jvp_at : (V -> V) -> V -> V -> V) (deriv : (P -> V) -> P -> P -> V)
+    (cg : V -> V -> (V -> V) -> (V -> V) -> option R -> V * V) (vzero : V) (precond : V -> V),
+  (forall a b, ipV a b = ipV b a) ->
+  (forall a b c t, ipV a (vadd b (vscale t c)) = ipV a b + t * ipV a c) ->
+  (forall a, ipV a vzero = 0) ->
+  (forall a b c, ipT a (thadd b c) = ipT a b + ipT a c) ->
+  (forall g q w dp, ipP dp (vjp_at g q w) = ipV (deriv g q dp) w) ->
+  forall (dth : Th) (dU0 : V) (l : list (bstep V P Th * tstep V P)) (st0 : sstate V P Th) (pany : Par P),
+  Forall (fun bt => b_state V P Th (fst bt) = true) l ->
+  hist_ok V P Th vadd vscale ipV ipP ipT gradx jvp_at deriv cg vzero pany dth dU0 l ->
+  exists st,
+    sweep V P Th gradx vjp_at jvp_at cg vzero precond vadd vscale thadd objective_vjp_closures
+      rule_nonlinear_solve_with_state_b rule_nonlinear_solve_b restore_nonlinear_solve_with_state_b restore_nonlinear_solve_b
+      objective_hessian_vec_is_jvp_of_grad_x_at_self_p st0 (map fst l) = Some st
+    /\ ipT dth (s_thbar V P Th st) + ipV dU0 (s_ubar V P Th st)
+       = ipT dth (s_thbar V P Th st0) + ipV (head_dU V P Th dU0 l) (s_ubar V P Th st0) + vsum V P Th ipV l.
+Proof. exact with_state_history_adjoint. Qed.
+
+(* histories of nonlinear_solve: if every forward pass ran while slots 0,1,3,4,5 of objective.p were those of pobj0 and the sweep starts from an
+   objective.p with the same slots, the reverse rules (which re-establish the design slot only) keep that true and the sweep returns the adjoint of the
+   chained implicit-function tangents at the FORWARD parameters upd (t_pobj) 2 design *)
+Theorem C07_design_history_adjoint :
+  forall (V P Th : Type) (vadd : V -> V -> V) (vscale : R -> V -> V) (thadd : Th -> Th -> Th)
+    (ipV : V -> V -> R) (ipP : P -> P -> R) (ipT : Th -> Th -> R) (gradx : V -> Par P -> V) (vjp_at : (P -> V) -> P -> V -> P)
+    (jvp_at : (V -> V) -> V -> V -> V) (deriv : (P -> V) -> P -> P -> V)
+    (cg : V -> V -> (V -> V) -> (V -> V) -> option R -> V * V) (vzero : V) (precond : V -> V),
+  (forall a b, ipV a b = ipV b a) ->
+  (forall a b c t, ipV a (vadd b (vscale t c)) = ipV a b + t * ipV a c) ->
+  (forall a, ipV a vzero = 0) ->
+  (forall a b c, ipT a (thadd b c) = ipT a b + ipT a c) ->
+  (forall g q w dp, ipP dp (vjp_at g q w) = ipV (deriv g q dp) w) ->
+  forall (pobj0 : Par P) (dth : Th) (dU0 : V) (l : list (bstep V P Th * tstep V P)) (st0 : sstate V P Th),
+  List.length (s_pobj V P Th st0) = 6%nat -> agree_off2 P (s_pobj V P Th st0) pobj0 ->
+  design_hist_ok V P Th vadd vscale ipV ipP ipT gradx jvp_at deriv cg vzero pobj0 dth dU0 l ->
+  exists st,
+    sweep V P Th gradx vjp_at jvp_at cg vzero precond vadd vscale thadd objective_vjp_closures
+      rule_nonlinear_solve_with_state_b rule_nonlinear_solve_b restore_nonlinear_solve_with_state_b restore_nonlinear_solve_b
+      objective_hessian_vec_is_jvp_of_grad_x_at_self_p st0 (map fst l) = Some st
+    /\ ipT dth (s_thbar V P Th st) + ipV dU0 (s_ubar V P Th st)
+       = ipT dth (s_thbar V P Th st0) + ipV (head_dU V P Th dU0 l) (s_ubar V P Th st0) + vsum V P Th ipV l.
+Proof. exact design_history_adjoint. Qed.
+
+(* the forward passes (model/M_C07_Hist.v, FwdSem; regenerated: the primal of nonlinear_solve runs the equation solver with objective.p whose slot 2 is
+   replaced by its argument, the primal of nonlinear_solve_with_state with its Params argument, nonlinear_equation_solve leaves objective.p = the parameters it
+   was given on every path): *)
+Theorem C07_forward_tables_resolve : fwd_tables_ok = true.
+Proof. exact fwd_tables_resolve. Qed.
+(* ... so in a history made of nonlinear_solve calls only (arguments may depend on the previous solution) slots 0,1,3,4,5 of objective.p never change: at the
+   start of every forward pass and at the end objective.p agrees with the initial pobj0 off slot 2, and every solve ran with upd (objective.p then) 2 design.
+   This discharges the hypotheses of C07_design_history_adjoint on t_pobj and on the start of the sweep for such histories. *)
+Theorem C07_forward_design_invariant : forall (V P : Type) (solve : V -> Par P -> V) (pobj0 : Par P), List.length pobj0 = 6%nat ->
+  forall (cs : list (V -> fcall P)) (pobj : Par P) (u : V),
+  (forall c u', In c cs -> exists d, c u' = FDesign P d) -> List.length pobj = 6%nat -> agree_off2 P pobj pobj0 ->
+  let res := fwd_run V P solve primal_params_nonlinear_solve primal_params_nonlinear_solve_with_state equation_solve_assigns_objective_p pobj u cs in
+  List.length (snd res) = 6%nat /\ agree_off2 P (snd res) pobj0
+  /\ forall pb p x, In (pb, p, x) (fst res) -> List.length pb = 6%nat /\ agree_off2 P pobj0 pb /\ exists d, p = upd P pb 2 d.
+Proof. exact fwd_design_invariant. Qed.
+(* nonlinear_solve_with_state runs with exactly the Params it is given -- what its forward rule saves and its reverse rule re-establishes *)
+Theorem C07_forward_state_params : forall (V P : Type) (solve : V -> Par P -> V) (pobj : Par P) (u : V) (p : Par P),
+  fwd_call V P solve primal_params_nonlinear_solve primal_params_nonlinear_solve_with_state equation_solve_assigns_objective_p pobj u (FState P p)
+  = (p, solve u p, p).
+Proof. exact fwd_state_params. Qed.
+
+(* REFUTED without that hypothesis (finding C07-DESIGN-RESTORE, reproduced on the implementation): load stepping through objective.p.  V = P = R, gradient
+   x - bc * design; the forward pass of a nonlinear_solve ran with bc = 1 (r_pobj), its reverse rule runs while objective.p holds bc = 2 (a later load
+   step assigned it; all other slots agree).  Every hypothesis of C07_design_rule_ift except the one on objective.p holds, the rule returns ONE cotangent
+   c, and <v, u> <> <dp, c> for the implicit-function tangent u at the forward parameters. *)
+Theorem C07_design_rule_load_stepping_refuted :
+  (forall a b : R, a * b = b * a)
+  /\ (forall a b c t : R, a * (b + t * c) = a * b + t * (a * c))
+  /\ (forall g q w dp, dp * i_vjp g q w = i_deriv g q dp * w)
+  /\ (forall p x v, solve_hyps R R Rplus Rmult Rmult r_gradx i_jvp i_cg 0 p x v)
+  /\ List.length r_pobj = 6%nat
+  /\ (forall j, (j < 6)%nat -> j <> 0%nat -> j <> 2%nat -> nth j (e_pcur R R r_env) None = nth j r_pobj None)
+  /\ let o := rule_out R R r_gradx i_vjp i_jvp i_cg 0 (fun z => z) objective_vjp_closures rule_nonlinear_solve_b restore_nonlinear_solve_b
+                objective_hessian_vec_is_jvp_of_grad_x_at_self_p r_env in
+     exists c dp u, snd o = [CotVal R c]
+       /\ ift_tangent R R Rmult r_gradx i_jvp i_deriv (upd R r_pobj 2 (e_dsaved R R r_env)) (e_Uu R R r_env) 2 (e_dsaved R R r_env) dp u
+       /\ e_v R R r_env * u <> dp * c.
+Proof. exact design_rule_load_stepping_refuted. Qed.
+
 (* NOT PROVED (hypotheses of the theorems above, checked on the implementation by the conclusion streams): that jax.vjp returns the transpose of
    the derivative and jax.jvp of a gradient is linear and self-adjoint (JAX's autodiff; against dense jacfwd / hessian); that the CG
    sub-solver at infinite radius returns a minimiser for every SPD preconditioner (exact-arithmetic CG; the streams use exact and
    deliberately poor preconditioners and bound the error by the CG tolerance); the existence and differentiability of the solution map
-   (the implicit function theorem itself: u is DEFINED by H u = -J dp).  The vjp wrappers of MechanicsInverse are not modelled
-   (checked against dense jacfwd on the implementation only). *)
+   (the implicit function theorem itself: u is DEFINED by H u = -J dp).  In the history theorems the pull-backs b_At / b_Bt of the user's own
+   parameter functions and the order in which JAX runs the rules (last solve first, cotangents summed) are the model's reading of jax.grad, checked
+   by the history / load-stepping / trace streams; of the forward passes only the handling of objective.p is modelled (the equation solver is a black box
+   returning the solution), and the records of fwd_run are not yet fed into hist_ok by a theorem (C07_forward_design_invariant states exactly the facts hist_ok
+   asks for).  The vjp wrappers of MechanicsInverse are not modelled (checked against dense jacfwd on the implementation only). *)
 
 Example C07_nonvacuous : forall h j v dp : R, 0 < h ->
   (forall z, qmodel R Rmult (fun x => h * x) v (- v / h) <= qmodel R Rmult (fun x => h * x) v z)
@@ -181,6 +335,24 @@ Example C07_rule_nonvacuous : forall h j : R, 0 < h ->
        ift_tangent R R Rmult (i_gradx h j) i_jvp i_deriv p x k q0 dp (- (j * dp) / h).
 Proof. intros h j Hh. split; [exact (instance_hyps h j Hh)|intros; apply instance_tangent; assumption]. Qed.
 
+(* the hypotheses of the history theorems are jointly satisfiable: a two-solve history of nonlinear_solve_with_state over R whose second solve takes its
+   state slot from the first solution and both take their boundary slot from theta *)
+Example C07_history_nonvacuous : forall h j a s : R, 0 < h -> forall dth b1 s1 x1 v1 b2 s2 x2 v2 : R,
+  let t1 := hi_t h j a s dth 0 in let t2 := hi_t h j a s dth (t_dU R R t1) in
+  hist_ok R R R Rplus Rmult Rmult Rmult Rmult (i_gradx h j) i_jvp i_deriv i_cg 0 [] dth 0
+    [(hi_step a s (hi_par b2 s2) x2 v2, t2); (hi_step a s (hi_par b1 s1) x1 v1, t1)].
+Proof. exact history_nonvacuous. Qed.
+
+(* ... and those of the design-history theorem: two nonlinear_solve calls on an objective whose slots 0,1 are b, st; the objective.p of the two forward
+   passes differ in the design slot only *)
+Example C07_design_history_nonvacuous : forall h j a : R, 0 < h -> forall dth b st d1 x1 v1 d2 x2 v2 dold1 dold2 : R,
+  design_hist_ok R R R Rplus Rmult Rmult Rmult Rmult (i_gradx h j) i_jvp i_deriv i_cg 0 [Some b; Some st; None; None; None; None] dth 0
+    [(di_step a d2 x2 v2, di_t h j a dth dold2 b st); (di_step a d1 x1 v1, di_t h j a dth dold1 b st)].
+Proof. exact design_history_nonvacuous. Qed.
+
+Print Assumptions C07_history_adjoint.
+Print Assumptions C07_design_rule_load_stepping_refuted.
+Print Assumptions C07_forward_design_invariant.
 Print Assumptions C07_with_state_rule_ift.
 Print Assumptions C07_adjoint_identity.
 Print Assumptions C07_refs_resolve.
